@@ -729,6 +729,23 @@ def check_case(ctx, case, reads, stratum="program"):
                 h[n].metadata = {"replaced-as-a-whole": k}     # (the record itself exchanged, not edited)
         h.add_node(ops.FuncDecl("declared.after.export", tys.PolyFuncType([], tys.FunctionType([tys.Bool], []))),
                    h.root, metadata={"late": True})
+        # ... and the bodies of function-valued constants (the value object stays, its HUGR changes)
+        from hugr import val as _val
+
+        def fvals(v_):
+            if isinstance(v_, _val.Function):
+                yield v_
+            for x_ in getattr(v_, "vals", None) or []:
+                yield from fvals(x_)
+
+        for n in list(h):
+            if isinstance(h[n].op, ops.Const):
+                for fv in fvals(h[n].op.val):
+                    ctx.feat("feature:function-constant-body-changed-between-exports")
+                    for bn in list(fv.body):
+                        fv.body[bn].metadata["body-changed-after-export"] = bn.idx
+                    fv.body.add_node(ops.Custom("added.after.export", tys.FunctionType([], []), extension="verif.late"),
+                                     fv.body.root, metadata={"late": True})
         check_export(ctx, h, case, stratum, reads)
     return nn
 
